@@ -426,6 +426,8 @@ func check(c Case) *vfrun.Failure {
 		_ = os.MkdirAll(filepath.Join(dir, sub), 0o755)
 		_ = os.WriteFile(filepath.Join(dir, sub, sub+".go"), []byte("package "+sub+"\n\n// Wrap is a helper of the user's own package.\nfunc Wrap(s string) string { return s }\n"), 0o644)
 	}
+	_ = os.MkdirAll(filepath.Join(dir, "strutil"), 0o755)
+	_ = os.WriteFile(filepath.Join(dir, "strutil", "strutil.go"), []byte("package strutil\n\n// Pad is a helper of the user's own package.\nfunc Pad(s string) string { return s }\n"), 0o644)
 	// a package meant to be dot-imported: its only exported name cannot collide with anything else
 	_ = os.MkdirAll(filepath.Join(dir, "dotutil"), 0o755)
 	_ = os.WriteFile(filepath.Join(dir, "dotutil", "dotutil.go"), []byte("package dotutil\n\n// DotWrap is used unqualified through a dot import.\nfunc DotWrap(s string) string { return s }\n"), 0o644)
@@ -672,6 +674,8 @@ var importUses = []struct{ imp, stmt string }{
 	{"PKG/errors", "_ = errors.Wrap(\"x\")"},
 	{"os", "_ = os.Getpid()"},
 	{". PKG/dotutil", "_ = DotWrap(\"d\")"},
+	// an alias that is not the package's name but happens to be the tail of its path
+	{"util PKG/strutil", "_ = util.Pad(\"p\")"},
 }
 
 func genBody(t *rapid.T, n int, allowReservedImport bool) (string, []string) {
@@ -689,7 +693,7 @@ func genBody(t *rapid.T, n int, allowReservedImport bool) (string, []string) {
 	if rapid.Bool().Draw(t, "useimport") {
 		pool := importUses
 		if !allowReservedImport {
-			pool = append(append([]struct{ imp, stmt string }{}, importUses[:3]...), importUses[4], importUses[5])
+			pool = append(append([]struct{ imp, stmt string }{}, importUses[:3]...), importUses[4], importUses[5], importUses[6])
 		}
 		u := pool[rapid.IntRange(0, len(pool)-1).Draw(t, "import")]
 		parts = append(parts, u.stmt)
